@@ -141,6 +141,26 @@ func (s c12Scenario) String() string {
 	return fmt.Sprintf("%s/%s/writer=%s/pending=%d", s.Op, s.Callback, w, s.Pending)
 }
 
+// innermostLibraryFrame returns the innermost frame of a goroutine dump if that frame is library code.
+func innermostLibraryFrame(raw string) string {
+	lines := strings.Split(raw, "\n")
+	for _, l := range lines[1:] {
+		l = strings.TrimSpace(l)
+		if l == "" || strings.HasPrefix(l, "/") {
+			continue
+		}
+		// first function line of the dump = innermost frame (runtime frames of a preempted goroutine are skipped)
+		if strings.HasPrefix(l, "runtime.") || strings.HasPrefix(l, "sync.") || strings.HasPrefix(l, "sync/atomic.") {
+			continue
+		}
+		if strings.Contains(l, "hashicorp/eventlogger") {
+			return l[strings.LastIndex(l, "/")+1:]
+		}
+		return ""
+	}
+	return ""
+}
+
 // underWatchdog runs f on its own goroutine. On expiry the goroutine's state decides.
 func underWatchdog(run *rt.Run, sc c12Scenario, what string, frame string, f func()) bool {
 	done := make(chan struct{})
@@ -176,7 +196,7 @@ func underWatchdog(run *rt.Run, sc c12Scenario, what string, frame string, f fun
 		}
 		return "", false, ""
 	}
-	s1, p1, _ := state()
+	s1, p1, raw1 := state()
 	time.Sleep(500 * time.Millisecond)
 	s2, p2, raw := state()
 	select {
@@ -201,6 +221,11 @@ func underWatchdog(run *rt.Run, sc c12Scenario, what string, frame string, f fun
 		}
 		run.Violation("deadlock:"+sc.Op+"/"+sc.Callback+"/writer="+wk, what+" did not return: its goroutine is parked forever at "+s1,
 			map[string]any{"scenario": sc.String(), "goroutine": raw, "parked_library_goroutines": all})
+	} else if inner1, inner2 := innermostLibraryFrame(raw1), innermostLibraryFrame(raw); !p1 && !p2 && inner1 != "" && inner2 != "" {
+		// not parked and, both times, running library code itself (no node or harness frame above it): the call
+		// is busy inside the library and has been for longer than the watchdog
+		run.Violation("spin:"+sc.Op+"/"+sc.Callback, fmt.Sprintf("%s did not return within %v and its goroutine is busy inside the library (at %s, 500 ms later at %s) with no node running", what, c12Watchdog, inner1, inner2),
+			map[string]any{"scenario": sc.String(), "goroutine": raw})
 	} else if c12Progress != nil {
 		// not parked: is the library calling back into the harness over and over? Every such call returned
 		// (the harness never blocks), so the nodes do return and the Broker call still does not end
@@ -232,7 +257,8 @@ func runC12Scenario(run *rt.Run, sc c12Scenario) {
 	}
 	// inner type: a plain pipeline that the callbacks send to
 	must(b.RegisterNode("im", NewRecNode(log, "im", eventlogger.NodeTypeFormatter, 1, fixedBeh(Pass))))
-	must(b.RegisterNode("ik", NewRecNode(log, "ik", eventlogger.NodeTypeSink, 1, fixedBeh(Drop))))
+	ikNode := NewRecNode(log, "ik", eventlogger.NodeTypeSink, 1, fixedBeh(Drop))
+	must(b.RegisterNode("ik", ikNode))
 	must(b.RegisterPipeline(eventlogger.Pipeline{PipelineID: "pi", EventType: "ti", NodeIDs: []eventlogger.NodeID{"im", "ik"}}))
 	must(b.RegisterPipeline(eventlogger.Pipeline{PipelineID: "pc", EventType: "tc", NodeIDs: []eventlogger.NodeID{"im", "ik"}}))
 	// outer type: [x (re-entrant), m, k]
@@ -258,7 +284,8 @@ func runC12Scenario(run *rt.Run, sc c12Scenario) {
 		must(b.RegisterNode("x", x))
 	}
 	must(b.RegisterNode("m", NewRecNode(log, "m", eventlogger.NodeTypeFormatter, 1, fixedBeh(Pass))))
-	must(b.RegisterNode("k", NewRecNode(log, "k", eventlogger.NodeTypeSink, 1, fixedBeh(Drop))))
+	kNode := NewRecNode(log, "k", eventlogger.NodeTypeSink, 1, fixedBeh(Drop))
+	must(b.RegisterNode("k", kNode))
 	must(b.RegisterPipeline(eventlogger.Pipeline{PipelineID: "po", EventType: "to", NodeIDs: []eventlogger.NodeID{"x", "m", "k"}}))
 	ctx := context.Background()
 	if gatedMode {
@@ -306,6 +333,23 @@ func runC12Scenario(run *rt.Run, sc c12Scenario) {
 			ok = underWatchdog(run, sc, "RegisterNode over the re-entrant node", "eventlogger.(*Broker).RegisterNode", func() {
 				b.RegisterNode("x", &plainNode{typ: eventlogger.NodeTypeFilter})
 			})
+		}
+	case "reopen-fail":
+		// nodes of two (or three) event types fail in the same Reopen; the errors have to come back, the call too
+		for _, o := range []*RecNode{ikNode, kNode} {
+			o.ReopenErr = &NodeErr{Obj: o.Obj, Prov: "reopen"}
+		}
+		ok = underWatchdog(run, sc, "Reopen with failing nodes in several event types", "eventlogger.(*Broker).Reopen", func() { b.Reopen(ctx) })
+	case "dup-ids":
+		// a legal, if unusual, definition that lists a node id twice; registration, Send and removal must all return
+		ok = underWatchdog(run, sc, "RegisterPipeline with a repeated node id", "eventlogger.(*Broker).RegisterPipeline", func() {
+			b.RegisterPipeline(eventlogger.Pipeline{PipelineID: "pd", EventType: "td", NodeIDs: []eventlogger.NodeID{"x", "x", "m", "k"}})
+		})
+		if ok {
+			ok = underWatchdog(run, sc, "Send through a pipeline with a repeated node id", "eventlogger.(*Broker).Send", func() { b.Send(ctx, "td", &Tok{S: "dup"}) })
+		}
+		if ok {
+			ok = underWatchdog(run, sc, "RemovePipelineAndNodes of a pipeline with a repeated node id", "eventlogger.(*Broker).RemovePipelineAndNodes", func() { b.RemovePipelineAndNodes(ctx, "td", "pd") })
 		}
 	case "getters":
 		// readers only: the threshold getters and IsAnyPipelineRegistered next to writers that take the write lock
@@ -400,7 +444,9 @@ func TestC12(t *testing.T) {
 			c12Scenario{Op: "reopen", Callback: "process", Writer: w},
 			c12Scenario{Op: "send", Callback: "close", Writer: w},
 		)
-		scs = append(scs, c12Scenario{Op: "regnode-over", Callback: "close", Writer: w}, c12Scenario{Op: "getters", Callback: "none", Writer: w})
+		scs = append(scs, c12Scenario{Op: "regnode-over", Callback: "close", Writer: w}, c12Scenario{Op: "getters", Callback: "none", Writer: w},
+			c12Scenario{Op: "dup-ids", Callback: "none", Writer: w}, c12Scenario{Op: "dup-ids", Callback: "process", Writer: w},
+			c12Scenario{Op: "reopen-fail", Callback: "none", Writer: w}, c12Scenario{Op: "reopen-fail", Callback: "reopen", Writer: w})
 		for p := 0; p <= 3; p++ {
 			scs = append(scs,
 				c12Scenario{Op: "regnode-over", Callback: "gated-close", Writer: w, Pending: p},
